@@ -21,7 +21,7 @@ HEADER = "From Coq Require Import PrimFloat.\nFrom Verif Require Import Spec.Pdd
 
 ADMISSIBLE_KINDS = ["fresh", "fresh-shuffled-dict", "swap", "permutation", "rotation", "chain", "overlap",
                     "partial-fresh", "identity", "library-style"]
-JUDGED_KINDS = ADMISSIBLE_KINDS + ["exhaustive", "corpus"]
+JUDGED_KINDS = ADMISSIBLE_KINDS + ["exhaustive", "corpus"]   # (hand-written cases carry one of the admissible kinds)
 FOREIGN_KINDS = ["collapse", "capture", "onto-constant", "moves-constant", "onto-unrenamed"]
 
 
@@ -207,6 +207,45 @@ def enrich_pairs(rng, a):
     else:
         a["pre"] = pre + [[rng.choice(["or", "and"])] + extra]
     return True
+
+
+# hand-written regression cases that every run replays (beside the witnesses of the findings)
+SHADOW_DOMAIN = """(define (domain dom) (:requirements :typing :universal-preconditions :conditional-effects :equality)
+(:types t0 - object)
+(:constants c0 - t0)
+(:predicates (p ?a - t0 ?b - t0) (q ?a - t0))
+(:functions (f ?a - t0))
+(:action sh :parameters (?x - t0 ?y - t0 ?z - t0)
+ :precondition (and (q ?x) (forall (?y - t0) (or (p ?y ?z) (q ?y))) (or (not (= ?x ?z)) (= ?y ?z)) (not (= ?x ?y)) (= ?z ?z))
+ :effect (and (p ?x ?y) (increase (f ?z) (+ (f ?x) 1))
+              (when (and (p ?y ?z) (or (= ?y ?x) (not (= ?y ?z)))) (and (not (q ?y)) (decrease (f ?y) (f ?z))))
+              (forall (?x - t0) (when (and (p ?x ?z)) (and (q ?x) (not (p ?x c0))))))))
+"""
+
+
+def handwritten_cases():
+    objs = [("o0", "t0"), ("o1", "t0"), ("o2", "t0")]
+    states = [{"facts": [["q", ["o0"]], ["q", ["o1"]], ["p", ["o2", "o1"]], ["p", ["o0", "o1"]], ["p", ["o2", "c0"]], ["p", ["c0", "o1"]]],
+               "fluents": [["f", ["o0"], 2.0], ["f", ["o1"], 0.5], ["f", ["o2"], 1.0], ["f", ["c0"], 0.0]]},
+              {"facts": [["q", ["o0"]], ["q", ["o2"]], ["q", ["c0"]], ["p", ["o1", "o2"]], ["p", ["o1", "c0"]], ["p", ["o0", "o2"]]],
+               "fluents": [["f", ["o0"], 1.0], ["f", ["o1"], 3.0], ["f", ["o2"], 0.0], ["f", ["c0"], 4.0]]}]
+    calls = [["o0", "o2", "o1"], ["o0", "o1", "o2"], ["o2", "o0", "o2"], ["o0", "o0", "o1"]]
+    probes = []
+    for st in states:
+        pt = G.problem_text(None, objs, {"facts": [(p, a) for p, a in st["facts"]], "fluents": [(f, a, v) for f, a, v in st["fluents"]]},
+                            domain="dom")
+        probes += [{"args": c, "state": st, "problem_text": pt} for c in calls]
+    out = []
+    for kind, m in [("fresh", [["?x", "?n0"], ["?y", "?n1"], ["?z", "?n2"]]),
+                    ("library-style", [["?x", "?param_0"], ["?y", "?param_1"], ["?z", "?param_2"]]),
+                    ("partial-fresh", [["?y", "?w"]]), ("partial-fresh", [["?x", "?w"]]),
+                    ("chain", [["?z", "?w"], ["?x", "?z"]])]:
+        out.append({"domain_text": SHADOW_DOMAIN, "objects": objs, "action": "sh", "mapping": m, "kind": kind, "probes": probes,
+                    "features": ["handwritten:shadowing"], "action_features": ["when", "forall", "or", "eq-or-numeq", "increase",
+                                                                               "decrease", "constant", "shadowing-quantifier",
+                                                                               "several-pairs"],
+                    "nparams": 3, "witness_of": None})
+    return out
 
 
 def action_features(a):
@@ -417,7 +456,7 @@ def run(args):
         cases = [data["input"]["case"]]
     else:
         fx, fx_skipped = fixture_cases(rng, args.tier)
-        cases = corpus_cases() + fx + generate(rng, args.tier) + exhaustive_cases(rng, {"quick": 2, "thorough": 30}[args.tier])
+        cases = corpus_cases() + handwritten_cases() + fx + generate(rng, args.tier) + exhaustive_cases(rng, {"quick": 2, "thorough": 30}[args.tier])
     cfg = run_impl([{"op": "core.numeric_config"}], nproc=1)[0]
     hashseeds = [0] if args.tier == "quick" else [0, 1]
     all_units, all_verdicts = [], ""
@@ -480,6 +519,7 @@ def run(args):
                     stats["action_features"][f] = stats["action_features"].get(f, 0) + 1
                 for f in c["features"]:
                     f = "fixture" if f.startswith("fixture:") else f
+                    f = "handwritten" if f.startswith("handwritten:") else f
                     stats["world_features"][f] = stats["world_features"].get(f, 0) + 1
                 if "value" not in res["renamed"]:
                     stats["change_signature_raised"] += 1
